@@ -234,6 +234,15 @@ void step(int tid) {
 
 long total_steps() { return g_steps; }
 
+void spurious_wake(int tid) {
+    std::unique_lock<std::mutex> lk(G);
+    ThreadRec * t = T.at(tid).get();
+    if (t->state == S_BLOCKED_CV) {
+        t->state = S_RUNNABLE;
+        t->kind = K_WAKE;
+    }
+}
+
 void reset() {
     std::unique_lock<std::mutex> lk(G);
     for (auto & t : T) {
